@@ -5,7 +5,9 @@ package gen
 
 import (
 	"sort"
+	"strings"
 	"sync"
+	"unicode/utf8"
 
 	"github.com/tormoder/fit"
 	"pgregory.net/rapid"
@@ -150,7 +152,26 @@ func StringBytes(d D, size int, odd bool) []byte {
 	if size == 0 {
 		return b
 	}
-	mode := d.Int(0, 5, "smode")
+	mode := d.Int(0, 6, "smode")
+	if mode == 6 {
+		// the whole field filled with 3- or 4-byte characters at a drawn
+		// phase, unterminated: whatever fixed length the profile cuts it
+		// to, some cut lands inside a character
+		r := []string{"日", "€", "😀", "本"}[d.Int(0, 3, "mbr")]
+		fill := strings.Repeat("a", d.Int(0, 3, "mbphase"))
+		for len(fill) < size {
+			fill += r
+		}
+		n := copy(b, fill)
+		// do not end inside a character: pad the tail with ASCII
+		for n > 0 && !runeStart(b[n-1]) && !utf8.Valid(b[:n]) {
+			n--
+		}
+		for i := size - 1; i >= 0 && !utf8.Valid(b); i-- {
+			b[i] = 'z'
+		}
+		return b
+	}
 	s := stringPool[d.Int(0, len(stringPool)-1, "spool")]
 	for len(s) < size && d.Chance(40, "sext") {
 		s += stringPool[d.Int(0, len(stringPool)-1, "spool2")]
@@ -219,11 +240,17 @@ func DrawFieldDef(d D, fi *fitmodel.FieldInfo, o *StreamOpts) fitmodel.FieldDef 
 		if max > 255 {
 			max = 255
 		}
-		switch d.Int(0, 5, "ssize") {
+		switch d.Int(0, 6, "ssize") {
 		case 0:
 			fd.Size = byte(fi.Length)
 		case 1:
 			fd.Size = 1
+		case 6:
+			// longer than the profile length
+			fd.Size = byte(fi.Length + d.Int(1, 6, "sover"))
+			if int(fd.Size) > max {
+				fd.Size = byte(max)
+			}
 		case 2:
 			fd.Size = byte(d.Int(0, max, "ssz"))
 		default:
